@@ -350,7 +350,7 @@ from zverif.harness.c05 import h_abort_reader as _abort_reader  # noqa: E402  (l
 from zverif.harness.c16 import h_load_before as _demo_load_before  # noqa: E402  (DemoStorage is one of the bundled storages)
 
 _FILE_Q = ['T1', 'T2', 'T4', 'T6']
-_FILE_ALL = ['T1', 'T2', 'T3', 'T4', 'T5', 'T6', 'T10', 'T3E', 'TBIG']
+_FILE_ALL = ['T1', 'T2', 'T3', 'T4', 'T5', 'T6', 'T10', 'T3E', 'TBIG', 'TS', 'TX']
 
 HARNESSES = [
     Harness('load_before', h_load_before,
@@ -391,7 +391,7 @@ HARNESSES = [
             decides='undoLog(first, last) lists the same transactions and metadata as the history, newest first',
             symbolic='first (0..8), last (-8..8)', bounds='templates per shard', oracle='RevStore.undo_log',
             code=['FileStorage.undoLog', 'UndoSearch'],
-            quick=dict(timeout=80, shards=shards(template=['T3', 'T4', 'TBIG'], reopen=[0])),
+            quick=dict(timeout=80, shards=shards(template=['T3', 'T4', 'TBIG', 'TS', 'TX'], reopen=[0])),
             thorough=dict(timeout=600, shards=shards(template=_FILE_ALL, reopen=[0, 1]))),
     Harness('iterator', h_iterator,
             decides='iterator(start, stop) yields exactly the transactions in range with their records and metadata',
